@@ -17,9 +17,54 @@ def pairwise_major(fn):
     if len(params) != 2:
         raise AnalysisError(f"order algebra: {fn.qual} is not a 2-parameter combinator")
     rets = [n for n in walk_local(fn.node) if isinstance(n, ast.Return)]
-    if len(rets) != 1:
-        raise AnalysisError(f"order algebra: {fn.qual} must have exactly one return")
-    r = rets[0].value
+    if not rets:
+        raise AnalysisError(f"order algebra: {fn.qual} has no return")
+    if len(rets) > 1:
+        # several code paths (e.g. a fast path): every one must follow the same convention
+        results = [_major_of_return(fn, params, r.value) for r in rets]
+        majors = {m for m, _ in results}
+        if len(majors) == 1:
+            return results[0][0], "; ".join(w for _, w in results)
+        return -1, "the return paths disagree: " + "; ".join(f"`{unparse(r.value)[:60]}`: {w}" for r, (m, w) in zip(rets, results))
+    return _major_of_return(fn, params, rets[0].value)
+
+
+def _broadcast_major(r, params, shapes):
+    """`(A[:, None, :] * B[:, :, None]).reshape(n, k)`: after a C-order reshape the operand whose column
+    axis comes first (after the row axis) is major.  returns (param index, why) or None"""
+    if not (isinstance(r, ast.Call) and isinstance(r.func, ast.Attribute) and r.func.attr == "reshape"):
+        return None
+    prod = r.func.value
+    if not (isinstance(prod, ast.BinOp) and isinstance(prod.op, ast.Mult)):
+        return None
+    pos = {}
+    for side in (prod.left, prod.right):
+        if not (isinstance(side, ast.Subscript) and isinstance(side.value, ast.Name) and side.value.id in params and isinstance(side.slice, ast.Tuple)):
+            return None
+        elts = side.slice.elts
+        if len(elts) != 3 or not isinstance(elts[0], ast.Slice):
+            return None
+        axes = []
+        for k, e in enumerate(elts[1:], start=1):
+            if isinstance(e, ast.Slice) and e.lower is None and e.upper is None:
+                axes.append(k)
+            elif unparse(e) in ("None", "np.newaxis"):
+                pass
+            else:
+                return None
+        if len(axes) != 1:
+            return None
+        pos[side.value.id] = axes[0]
+    if len(pos) != 2 or len(set(pos.values())) != 2:
+        return None
+    major = min(pos, key=pos.get)
+    return params.index(major), f"broadcast product reshaped in C order: the column axis of `{major}` comes first, so `{major}` is major"
+
+
+def _major_of_return(fn, params, r):
+    b = _broadcast_major(r, params, None)
+    if b is not None:
+        return b
     # khatri_rao(a.T, b.T).T
     kr = _khatri(r)
     if kr is not None:
@@ -70,19 +115,34 @@ def _khatri(node):
     return None
 
 
-def _range_param(it, params):
-    """`range(<p>.shape[1])` -> p"""
+def _range_param(it, params, aliases=None):
+    """`range(<p>.shape[1])` (or a local alias of it) -> p"""
     if isinstance(it, ast.Call) and dotted(it.func) == "range" and len(it.args) == 1:
         s = unparse(it.args[0])
+        if aliases and s in aliases:
+            s = aliases[s]
         for p in params:
             if s == f"{p}.shape[1]":
                 return p
     return None
 
 
+def _shape_aliases(fn):
+    out = {}
+    for s in walk_local(fn.node):
+        if isinstance(s, ast.Assign) and len(s.targets) == 1:
+            t, v = s.targets[0], s.value
+            if isinstance(t, ast.Name) and isinstance(v, ast.Subscript) and unparse(v).endswith(".shape[1]"):
+                out[t.id] = unparse(v)
+            if isinstance(t, ast.Tuple) and len(t.elts) == 2 and isinstance(v, ast.Attribute) and v.attr == "shape" and isinstance(t.elts[1], ast.Name):
+                out[t.elts[1].id] = f"{unparse(v.value)}.shape[1]"
+    return out
+
+
 def _from_loops(fn, params, ovar, oiter, ivar, iiter, elt):
-    op = _range_param(oiter, params)
-    ip = _range_param(iiter, params)
+    al = _shape_aliases(fn)
+    op = _range_param(oiter, params, al)
+    ip = _range_param(iiter, params, al)
     if op is None or ip is None or op == ip:
         raise AnalysisError(f"order algebra: loop ranges `{unparse(oiter)}` / `{unparse(iiter)}` are not range(<param>.shape[1]) in {fn.qual}")
     # which parameter does each loop variable index?
